@@ -48,6 +48,8 @@ _de += [
     H("rt_opt_i64_some", "C13.K.scalar_roundtrip.option_i64_some", DE, ["Deserializer<'de> for Any::deserialize_option"], "Some(i64) round trip, all values"),
     H("rt_opt_f64_some", "C13.K.scalar_roundtrip.option_f64_some", DE, ["Deserializer<'de> for Any::deserialize_option", "Deserializer<'de> for Any::deserialize_f64"], "Some(f64) round trip, bitwise"),
     H("rt_opt_none", "C13.K.scalar_roundtrip.option_none", DE, ["Deserializer<'de> for Any::deserialize_option"], "None round trip"),
+    H("rt_newtype_struct", "C13.K.newtype_struct.roundtrip", DE, ["Deserializer<'de> for Any::deserialize_newtype_struct", SER + "::Serializer for AnySerializer::serialize_newtype_struct"],
+      "a derive-shaped newtype struct W(i64) round-trips through Any (all values)"),
     H("rt_char", "C13.K.scalar_roundtrip.char", DE, ["Deserializer<'de> for Any::deserialize_any"], "char round trip, all scalar values (stored as a string)"),
 ]
 for t in ["bool"] + INTS + ["char", "f32", "f64"]:
